@@ -37,50 +37,114 @@ def bits_equal(a, b):
     return a.shape == b.shape and np.array_equal(a.view(np.uint32), b.view(np.uint32))
 
 
-def replay_reader(req, tmp):
-    """Reader method on a spec-written file vs the spec decoder (independent oracle)."""
+def build_case(req, tmp):
+    """Write the concrete spec-conforming file of a reader-side counterexample. Returns a namespace with
+    path, T (dims, layout, ...), m (method descriptor), args, headers (stored arrays), hdr, vol (spec decode)."""
     from harness import readers  # pure-python method table (no engine use with ints)
-    import seismic_zfp.read as R
-    from seismic_zfp.utils import WrongDimensionalityError
     m_ = req['model']
     bs, rate = tuple(req['bs']), req['rate']
     is2d = bs[0] == 1
     seed = req.get('seed', 0)
-    path = os.path.join(tmp, 'r.sgz')
+    C = NS()
+    C.path = os.path.join(tmp, 'r.sgz')
     T = NS()
     T.bs, T.rate = bs, rate
-    version = m_.get('version', req.get('version', specio.enc_version(0, 2, 5)))
+    version = m_.get('version', req.get('version') or specio.enc_version(0, 2, 5))
+    stored = sorted(req.get('stored') or [])
+    T.stored = stored
+    rng = np.random.default_rng(seed + 1)
     if is2d:
         ntr, ns = m_['n_tr'], m_['n_s']
         cube = specio.random_cube((ntr, ns), seed)
-        specio.write_sgz_2d(path, cube, bs, rate, version=version)
+        headers = {f: rng.integers(-2 ** 31, 2 ** 31 - 1, size=ntr, dtype=np.int64).astype('<i4') for f in stored}
+        specio.write_sgz_2d(C.path, cube, bs, rate, version=version, headers=headers)
         T.dims = (ntr, ns)
+        T.pad = (specio.pad_to(ntr, bs[1]), specio.pad_to(ns, bs[2]))
+        T.n_traces = ntr
         m = readers.METHODS_2D[req['method']]
     else:
         dims = (m_['n_il'], m_['n_xl'], m_['n_s'])
         cube = specio.random_cube(dims, seed)
         T.il0, T.xl0 = m_.get('il0', req.get('il0', 1)), m_.get('xl0', req.get('xl0', 1))
         T.il_step, T.xl_step = req.get('il_step', 1), req.get('xl_step', 1)
-        specio.write_sgz_3d(path, cube, bs, rate, il0=T.il0, xl0=T.xl0, il_step=T.il_step, xl_step=T.xl_step, version=version)
+        headers = {f: rng.integers(-2 ** 31, 2 ** 31 - 1, size=dims[0] * dims[1], dtype=np.int64).astype('<i4') for f in stored}
+        specio.write_sgz_3d(C.path, cube, bs, rate, il0=T.il0, xl0=T.xl0, il_step=T.il_step, xl_step=T.xl_step, version=version,
+                            headers=headers)
         T.dims = dims
+        T.pad = tuple(specio.pad_to(n, b) for n, b in zip(dims, bs))
+        T.n_traces = dims[0] * dims[1]
         m = readers.METHODS[req['method']]
-    hdr, vol = specio.decode_sgz(path)
-    args = [m_[n] for n in m.argn]
+    C.hdr, C.vol = specio.decode_sgz(C.path)
+    C.T, C.m, C.headers, C.stored, C.is2d = T, m, headers, stored, is2d
+    C.args = [m_[n] for n in m.argn]
+    C.call = '%s(%s) on %s cube, blockshape %s, rate %s' % (req['method'], ', '.join('%s=%s' % (n, v) for n, v in zip(m.argn, C.args)),
+                                                            T.dims, bs, rate)
+    return C
+
+
+def compare_result(C, res, req):
+    """Compare what the real call returned with the independent oracle. -> None if equal, else (outcome, detail)."""
+    m, T, args, call = C.m, C.T, C.args, C.call
     inr = bool(m.inr(T, args))
+    if m.kind == 'refuse':
+        return ('returned-2d', '%s returned on a 2D file' % call)
+    if m.kind == 'header':
+        import segyio
+        headers, stored = C.headers, C.stored
+        if m.argn:
+            k = args[0] + T.n_traces if args[0] < 0 else args[0]
+            if not 0 <= k < T.n_traces:
+                return ('returned-nothing-denoted', '%s returned a header although the file has only %d traces (stored fields read back as %s)' % (
+                    call, T.n_traces, {f: int(res[segyio.tracefield.TraceField(f)]) for f in stored} if isinstance(res, dict) else type(res).__name__))
+        if isinstance(res, dict):
+            bad = {f: (int(res[segyio.tracefield.TraceField(f)]), int(headers[f][k])) for f in stored
+                   if int(res[segyio.tracefield.TraceField(f)]) != int(headers[f][k])}
+            bad.update({f: (int(res[segyio.tracefield.TraceField(f)]), 0) for f in specio.TRACE_FIELDS
+                        if f not in stored and int(res[segyio.tracefield.TraceField(f)]) != 0})
+            if bad:
+                return ('header-values', '%s: fields differ from the stored arrays (got, stored): %s' % (call, dict(list(bad.items())[:4])))
+            return None
+        pos = int(req['method'].split('_')[3])
+        exp = headers[stored[pos]].reshape(T.dims[:2]) if not C.is2d else headers[stored[pos]]
+        if np.asarray(res).shape != exp.shape or not np.array_equal(np.asarray(res), exp):
+            return ('header-values', '%s differs from the stored array of field %d' % (call, stored[pos]))
+        return None
     d = m.denote(T, args)
-    r = R.SgzReader(path, chunk_cache_size=req.get('chunk_cache_size'))
+    res = np.asarray(res)
+    if d is None:
+        return ('returned-nothing-denoted', '%s returned an array of shape %s although the arguments denote no real item' % (call, res.shape))
+    shape, vox = d
+    exp = np.zeros(shape, dtype=np.float32)
+    for q in np.ndindex(*shape):
+        v = vox(q)
+        exp[q] = C.vol[tuple(v)]
+        assert all(0 <= c < n for c, n in zip(v, T.dims)), ('oracle addressed a padding voxel', v, T.dims)
+    exp_s, res_s = np.squeeze(exp), np.squeeze(res)
+    if exp_s.shape != res_s.shape:
+        return ('shape', '%s returned shape %s, the denoted slice has shape %s' % (call, res.shape, exp.shape))
+    if not bits_equal(exp_s, res_s.astype(np.float32)):
+        bad = np.argwhere(exp_s.view(np.uint32) != np.ascontiguousarray(res_s, dtype=np.float32).view(np.uint32))
+        return ('values', '%s differs from the spec-decoded slice at %d of %d elements, first at %s' % (call, len(bad), exp_s.size, bad[0].tolist()))
+    return None
+
+
+def replay_reader(req, tmp):
+    """Reader method on a spec-written file vs the spec decoder (independent oracle)."""
+    import seismic_zfp.read as R
+    from seismic_zfp.utils import WrongDimensionalityError
+    C = build_case(req, tmp)
+    m, T, args, call = C.m, C.T, C.args, C.call
+    inr = bool(m.inr(T, args))
+    r = R.SgzReader(C.path, chunk_cache_size=req.get('chunk_cache_size'))
+    r._verif_stored = tuple(C.stored)
     try:
         try:
             res = quiet(m.call, r, args)
             exc = None
-        except (IndexError, WrongDimensionalityError) as e:
-            res, exc = None, e
         except Exception as e:
             res, exc = None, e
     finally:
         r.close()
-    call = '%s(%s) on %s cube, blockshape %s, rate %s' % (req['method'], ', '.join('%s=%s' % (n, v) for n, v in zip(m.argn, args)),
-                                                          T.dims, bs, rate)
     if exc is not None:
         ok_type = isinstance(exc, (IndexError, WrongDimensionalityError))
         if inr:
@@ -90,28 +154,10 @@ def replay_reader(req, tmp):
             return dict(reproduced=True, detail='%s raised %s (not IndexError): %s' % (call, type(exc).__name__, str(exc)[:80]),
                         extra=dict(outcome='wrong-exception', exc=type(exc).__name__))
         return dict(reproduced=False, detail='%s raised %s as it should' % (call, type(exc).__name__))
-    if m.kind == 'refuse':
-        return dict(reproduced=True, detail='%s returned on a 2D file' % call, extra=dict(outcome='returned-2d'))
-    res = np.asarray(res)
-    if d is None:
-        return dict(reproduced=True, detail='%s returned an array of shape %s although the arguments denote no real item' % (call, res.shape),
-                    extra=dict(outcome='returned-nothing-denoted'))
-    shape, vox = d
-    exp = np.zeros(shape, dtype=np.float32)
-    for q in np.ndindex(*shape):
-        v = vox(q)
-        exp[q] = vol[tuple(v)]
-        real = all(0 <= c < n for c, n in zip(v, T.dims))
-        assert real, ('oracle addressed a padding voxel', v, T.dims)
-    exp_s, res_s = np.squeeze(exp), np.squeeze(res)
-    if exp_s.shape != res_s.shape:
-        return dict(reproduced=True, detail='%s returned shape %s, the denoted slice has shape %s' % (call, res.shape, exp.shape),
-                    extra=dict(outcome='shape'))
-    if not bits_equal(exp_s, res_s.astype(np.float32)):
-        bad = np.argwhere(exp_s.view(np.uint32) != np.ascontiguousarray(res_s, dtype=np.float32).view(np.uint32))
-        return dict(reproduced=True, detail='%s differs from the spec-decoded slice at %d of %d elements, first at %s' % (
-            call, len(bad), exp_s.size, bad[0].tolist()), extra=dict(outcome='values'))
-    return dict(reproduced=False, detail='%s equals the spec-decoded slice (shape %s)' % (call, res_s.shape))
+    bad = compare_result(C, res, req)
+    if bad is not None:
+        return dict(reproduced=True, detail=bad[1], extra=dict(outcome=bad[0]))
+    return dict(reproduced=False, detail='%s equals the independent oracle' % call)
 
 
 HANDLERS = {'reader': replay_reader}
